@@ -93,6 +93,7 @@ def direct(name, vars_, prop, hyps=(), uses=()):
     return [name]
 
 
+C19L: list = []  # filled by c_reserved (its spec vocabulary is defined there)
 L1 = []
 L1 += induction("L1.count_nonneg", {"SA": "Seq[Atom]"}, "count_sd(SA, j) >= 0 and count_sd(SA, j) <= j")
 L1 += induction("L1.filter_len", {"SA": "Seq[Atom]"}, "len(filter_sd(SA, j)) == count_sd(SA, j)")
